@@ -241,6 +241,16 @@ class WassersteinGEMINI(_GEMINI, ABC):
 
         wy = np.ascontiguousarray((y_pred / (pi.reshape((1, -1)) * N)).T)
 
+        # The transport solver compares reduced costs with absolute thresholds of the order of the machine epsilon:
+        # distances in small units (e.g. 1e-12) would leave only a few correct digits in the dual potentials.
+        # The problems are therefore solved on a cost matrix of unit scale and the results scaled back.
+        affinity = np.asarray(affinity, dtype=np.float64)
+        cost_scale = np.max(np.abs(affinity)) if affinity.size > 0 else 0.0
+        if np.isfinite(cost_scale) and cost_scale > 0:
+            affinity = affinity / cost_scale
+        else:
+            cost_scale = 1.0
+
         if self.ovo:
             if return_grad:
                 grads = np.zeros(y_pred.shape)
@@ -249,12 +259,13 @@ class WassersteinGEMINI(_GEMINI, ABC):
             for k1 in range(K):
                 for k2 in range(k1 + 1, K):
                     emd, log = ot.emd2(wy[k1], wy[k2], affinity, log=True)
+                    emd = emd * cost_scale
                     wasserstein_distances[k1, k2] = emd
                     wasserstein_distances[k2, k1] = emd
 
                     if return_grad:
-                        u_bar = log["u"] - log["u"].mean()
-                        v_bar = log["v"] - log["v"].mean()
+                        u_bar = (log["u"] - log["u"].mean()) * cost_scale
+                        v_bar = (log["v"] - log["v"].mean()) * cost_scale
                         grads[:, k1] += 2 * pi[k2] * (u_bar / N - (u_bar * y_pred[:, k1] / (N * N * pi[k1])).sum())
                         grads[:, k2] += 2 * pi[k1] * (v_bar / N - (v_bar * y_pred[:, k2] / (N * N * pi[k2])).sum())
 
@@ -273,10 +284,11 @@ class WassersteinGEMINI(_GEMINI, ABC):
 
             for k in range(K):
                 wasserstein_distances[k], dual_variables[k] = ot.emd2(wy[k], constant_weights, affinity, log=True)
+            wasserstein_distances *= cost_scale
 
             wasserstein_ova_value = np.dot(pi, wasserstein_distances)
             if return_grad:
-                u_bar = np.vstack([x["u"] - x["u"].mean() for x in dual_variables]).T
+                u_bar = np.vstack([x["u"] - x["u"].mean() for x in dual_variables]).T * cost_scale
                 grads = u_bar / N + wasserstein_distances / N
                 grads -= (y_pred * u_bar).sum(0) / (N * N * pi)
                 return wasserstein_ova_value, grads * clip_mask
